@@ -37,7 +37,7 @@ def bool_l1(ints: Sequence[str]) -> List[str]:
     out += ["x is None", "x is not None", "isinstance(x, int)", "bool(xs)", "xs == [1]", "xs != []", "not b",
             "all(i > 0 for i in xs)", "any(i > x for i in xs)", "all(i > y for i in xs if i != 0)",
             "all(i + j > 0 for i in xs for j in xs)", "all(i > 0 for i in o.xs)", "all(abs(i) > x for i in xs)",
-            "f'{x}' == '1'", "{x, y} == {1}", "(x, y) == (1, 2)", "[x] == xs", "{'a': x} == {}", "xs[1:] == []",
+            "f'{x}' == '1'", "f'{o.n}-{abs(x)}' == 'zz'", "{x, y} == {1}", "(x, y) == (1, 2)", "[x] == xs", "{'a': x} == {}", "xs[1:] == []",
             "x < y < 3", "x < y <= G < 9", "x == y == 0", "0 < x < 10 // x", "o.check(x)", "callable(func)",
             "str(x) == '1'", "x in (1, 2)", "x in {1: 2}", "len(xs) > 0 and xs[0] > 0", "xs and xs[0] > 0",
             "not xs or xs[0] > 0", "b and x > 0", "b or x > 0", "x > 0 if b else y > 0", "(w := len(xs)) > 1 and w < 3",
@@ -106,6 +106,7 @@ class _Instrument(ast.NodeTransformer):
     def __init__(self, src: str) -> None:
         self.src = src
         self.inside = []  # type: List[str]   # texts of recordable nodes inside comprehension scopes
+        self.in_fstring = 0
 
     def _text(self, node: ast.AST) -> str:
         seg = ast.get_source_segment(self.src, node)
@@ -113,6 +114,8 @@ class _Instrument(ast.NodeTransformer):
         return seg
 
     def _wrap(self, kind: str, node: ast.expr, new: ast.expr, text: Optional[str] = None) -> ast.expr:
+        if self.in_fstring and kind != "fstring":
+            kind = "fstr:" + kind  # evaluated inside an f-string (see known finding KF-C06-1)
         call = ast.Call(func=ast.Name(id="__rec__", ctx=ast.Load()),
                         args=[ast.Constant(kind), ast.Constant(text if text is not None else self._text(node)), new],
                         keywords=[])
@@ -168,7 +171,9 @@ class _Instrument(ast.NodeTransformer):
     def _fstring_values(self, node: ast.JoinedStr) -> None:
         for part in node.values:
             if isinstance(part, ast.FormattedValue):
+                self.in_fstring += 1
                 part.value = self.visit(part.value)
+                self.in_fstring -= 1
                 if isinstance(part.format_spec, ast.JoinedStr):
                     self._fstring_values(part.format_spec)
 
